@@ -243,10 +243,12 @@ seq_t dtw_distance{{ suffix }}{{ suffix2 }}(seq_t *s1, idx_t l1,
                 #ifdef DTWDEBUG
                 printf("dtw[%zu] = %f > %f\n", curidx, dtw[curidx], max_dist);
                 #endif
-                if (!smaller_found) {
+                // A psi-relaxed path can still start in a later row (first column)
+                // or further in the first row
+                if (!smaller_found && i >= settings->psi_1b) {
                     sc = j + 1;
                 }
-                if (j >= ec) {
+                if (j >= ec && (i > 0 || j >= settings->psi_2b)) {
                     #ifdef DTWDEBUG
                     printf("Break because of pruning with j=%zu, ec=%zu (saved %zu computations)\n", j, ec, minj-j);
                     #endif
